@@ -87,6 +87,22 @@ class World:
         self._fresh = itertools.count()
 
     def ground_len_facts(self, formulas, depth=3):
+        """Union of the per-formula ground list facts (cached per formula)."""
+        cache = self.__dict__.setdefault("_glf_cache", {})
+        out = []
+        seen = set()
+        for f in formulas:
+            k = f.get_id()
+            if k not in cache:
+                cache[k] = (f, self._ground_len_facts1(f, depth))
+            for g in cache[k][1]:
+                gi = g.get_id()
+                if gi not in seen:
+                    seen.add(gi)
+                    out.append(g)
+        return out
+
+    def _ground_len_facts1(self, f, depth=3):
         """Quantifier-free instances of list lemmas (each is a Lean theorem over List, see
         lean/FuncAdlLemmas.lean / Mathlib): len_l(x) >= 0;  append_assoc;  append_nil;
         length_append — instantiated at the terms occurring in the formulas."""
@@ -94,7 +110,7 @@ class World:
         S = self.S
         seen = set()
         out = []
-        for f in formulas:
+        for f in (f,):
             for a in len_args(self, f):
                 if isinstance(a, tuple) and a[0] == "map":
                     t = a[1]
